@@ -139,6 +139,13 @@ def oracle(prop, run):
         if key in desc_flags:
             t["loaded_terminal"], t["loaded_conditional"] = t["terminal"], t["conditional"]
             t["terminal"], t["conditional"] = desc_flags[key]
+    if prop in ("C02", "C06", "C07"):
+        # these properties are stated in terms of joins and conditionals: a task object that claims another role than
+        # the description gives it makes the simulator treat it by the wrong rule (release, readiness, cancellation)
+        for lab, t in tasks.items():
+            if "loaded_terminal" in t and (t["loaded_terminal"], t["loaded_conditional"]) != (t["terminal"], t["conditional"]):
+                yield (f"{prop} task-role-differs-from-the-description terminal={t['loaded_terminal']}/{t['terminal']} conditional={t['loaded_conditional']}/{t['conditional']}", {"task": lab, "name": t["name"], "graph": t["graph"]})
+                break
     variance = flags["runtime_variance"]
     zero_rt = any(s["runtime"] == 0 for p in world["workload"]["profiles"] for s in p["execution_strategies"])
     starts, finishes = {}, {}
